@@ -89,3 +89,55 @@ func vfC14_Sequential() {
 	vfCheckSnapshot(c.Snapshot(), &ref, seen)
 	vfReach("end")
 }
+
+// vfC14_Concurrent: two operations in two goroutines, every interleaving at the granularity of
+// lock operations and atomic operations explored (bounded number of preemptions).
+//   mode 0: two Collect calls for the same, not yet seen user
+//   mode 1: Collect (known user) in parallel with SnapshotAndReset; conservation across the reset
+//   mode 2: Collect (new user) in parallel with SnapshotAndReset
+func vfC14_Concurrent() {
+	mode := vfCase("mode")
+	c := NewServerCollector()
+	a1, a2, b1, b2 := vfU64("a1"), vfU64("a2"), vfU64("b1"), vfU64("b2")
+	if mode == 1 {
+		c.CollectTCPSession("alice", 0, 0)
+	}
+	var mid Server
+	vfSchedule(vfCase("preempt"))
+	vfGo("t1", func() { c.CollectTCPSession("alice", a1, a2) })
+	if mode == 0 {
+		vfGo("t2", func() { c.CollectUDPSessionDownlink("alice", b1, b2) })
+	} else {
+		vfGo("t2", func() { mid = c.SnapshotAndReset() })
+	}
+	vfJoin()
+	fin := c.Snapshot()
+	var want Traffic
+	want.DownlinkBytes, want.UplinkBytes, want.TCPSessions = a1, a2, 1
+	if mode == 0 {
+		want.DownlinkPackets, want.DownlinkBytes, want.UDPSessions = b1, a1+b2, 1
+	}
+	if mode == 1 {
+		want.TCPSessions = 2
+	}
+	got := fin.Traffic
+	got.Add(mid.Traffic)
+	vfAssert(vfTrafficEq(got, want), "snapshots taken while recording continues never drop or double-count traffic")
+	// the user's own figures
+	var u Traffic
+	for _, x := range mid.Users {
+		if x.Name == "alice" {
+			u.Add(x.Traffic)
+		}
+	}
+	n := 0
+	for _, x := range fin.Users {
+		if x.Name == "alice" {
+			u.Add(x.Traffic)
+			n++
+		}
+	}
+	vfAssert(n == 1, "the user is listed once")
+	vfAssert(vfTrafficEq(u, want), "a user first seen mid-run is not lost; per-user figures are conserved")
+	vfReach("end")
+}
